@@ -174,10 +174,30 @@ class C01(Property):
     CORNER_RADII = [0.55, 0.75, 0.95, 1.2, 1.45, 1.8, 2.05, 2.4]
 
     def exhaustive_jobs(self, tier):
-        return [{"domain": "corner-sweep", "grid": g, "radius_factor": rf} for g in self.CORNER_GRIDS[tier] for rf in self.CORNER_RADII]
+        jobs = [{"domain": "corner-sweep", "grid": g, "radius_factor": rf} for g in self.CORNER_GRIDS[tier] for rf in self.CORNER_RADII]
+        # emulsions of very many droplets (cluster counts beyond block sizes, key widths and small integer types)
+        for side, per in [(6, [True, True]), (12, [True, False]), (17, [True, True]), (33, [True, True])] + ([(33, [False, True]), (46, [True, True])] if tier != "quick" else []):
+            jobs.append({"domain": "many-droplets", "many": side, "periodic": per})
+        return jobs
 
     def expand(self, job):
         import itertools
+
+        if "many" in job:
+            # side x side droplets on a jittered square lattice (pitch 8 cells) that is displaced by an arbitrary amount along the
+            # periodic axes, so that droplets straddle the boundaries - also the ones that are labelled last
+            side, per = job["many"], job["periodic"]
+            rng = np.random.default_rng([side, int(per[0]), int(per[1])])
+            dx = 0.7
+            g = {"origin": [-3.0, 5.0], "shape": [8 * side, 8 * side], "spacing": [dx, dx], "periodic": per}
+            off = [float(rng.uniform(0, 8)) if p else 4.0 for p in per]
+            drops = []
+            for i in range(side):
+                for j in range(side):
+                    c = [g["origin"][a] + dx * (off[a] + 8 * k + float(rng.uniform(-0.35, 0.35))) for a, k in enumerate((i, j))]
+                    drops.append({"position": [gen.r6(x) for x in c], "radius": gen.r6(dx * float(rng.uniform(1.2, 2.2)))})
+            yield {"family": "cart", "grid": g, "droplets": drops, "sweep": "many"}
+            return
 
         g = job["grid"]
         geom = O.CartGeom(g["origin"], g["shape"], g["spacing"], g["periodic"])
@@ -226,7 +246,7 @@ class C01(Property):
                 pass
         res = locate_droplets(field)
         aniso = float(geom.dx.max() / geom.dx.min())
-        ctx.cls(f"cart{dim}d", f"per{sum(geom.periodic)}", f"n{len(drops)}")
+        ctx.cls(f"cart{dim}d", f"per{sum(geom.periodic)}", f"n{len(drops)}" if len(drops) <= 4 else "n>" + str(max(t for t in (4, 32, 128, 256, 1024, 2048) if len(drops) > t)))
         covered = []
         straddle = 0
         for d in drops:
@@ -252,12 +272,16 @@ class C01(Property):
         if not ctx.require(len(res) == len(drops), "cart:count", f"{len(drops)} droplets rendered, {len(res)} located"):
             return
         found = [(np.asarray(r.position, float), float(r.volume)) for r in res]
-        used = set()
+        if not ctx.require(all(f[0].shape == (dim,) for f in found), "cart:position-shape", "a located droplet has a position of the wrong shape"):
+            return
+        F = np.array([f[0] for f in found], float).reshape(len(found), dim)
+        taken = np.zeros(len(found), bool)
         for d, cov in zip(drops, covered):
             c = np.asarray(d["position"], float)
-            order = sorted((j for j in range(len(found)) if j not in used), key=lambda j: np.linalg.norm(geom.min_image(found[j][0] - c)))
-            j = order[0]
-            used.add(j)
+            dd = np.linalg.norm(geom.min_image(F - c), axis=1)
+            dd[taken] = np.inf
+            j = int(np.argmin(dd))
+            taken[j] = True
             p, v = found[j]
             Vexp = cov.sum() * geom.cell_volume
             ctx.require(abs(v - Vexp) <= 1e-9 * Vexp, "cart:volume", f"droplet at {c} R={d['radius']}: volume {v} expected {Vexp} ({int(cov.sum())} cells)")
